@@ -153,6 +153,8 @@ static inline bool UBF(p_put)(UB_C o, const UB_C *n, cstl_tp now, uint64_t k, ui
 /* C02 for ut_map/ut_set: immediately after the call every stored entry is live, so size() == number of live keys */
 static inline bool UBF(all_live)(const UB_C *n, cstl_tp now, uint64_t g) { UBF(vw) v = UBF(view)(n, g); return !v.has || now < v.exp; }
 static inline bool UBF(view_eq)(const UB_C *a, const UB_C *b, uint64_t g) { return UBF(vw_same)(UBF(view)(a, g), UBF(view)(b, g)); }
+static inline cstl_ms UBF(view_ttl_o)(UB_C o) { return o.m_uniform_ttl; }
+static inline uint64_t UBF(acq_o)(UB_C o) { return o.m_lock.m_lock.acq; }
 static inline bool UBF(has_o)(UB_C o, uint64_t k) { return UBF(has)(&o, k); }
 static inline UBF(vw) UBF(view_o)(UB_C o, uint64_t k) { return UBF(view)(&o, k); }
 static inline uint64_t UBF(size_o)(UB_C o) { return UBF(size)(&o); }
